@@ -41,12 +41,17 @@ cp "$VERIF/ocaml/lincheck_main.ml" "$WORK/" || exit 1
 (cd "$WORK" && timeout 600 ocamlfind ocamlopt -w -a lin.mli lin.ml lincheck_main.ml -o lincheck) || { echo "FAIL: ocaml build"; exit 1; }
 
 # expect <name> <expected verdicts, blank separated> <lincheck arguments...>   (history on stdin)
+# every case is decided three times: default mode, plain search (-nomemo), memoised search (-memo)
 expect() {
   local name="$1" want="$2"; shift 2
-  local got
-  got=$("$WORK/lincheck" "$@" | tr '\n' ' ' | sed 's/ $//')
-  if [ "$got" = "$want" ]; then echo "   ok    $name: $got"
-  else echo "   FAIL  $name: expected '$want' got '$got'"; fail=1; fi
+  local input got mode
+  input=$(cat)
+  for mode in "" -nomemo -memo; do
+    if [ "$1" = "-lp" ] && [ -n "$mode" ]; then continue; fi
+    got=$(printf '%s\n' "$input" | "$WORK/lincheck" $mode "$@" | tr '\n' ' ' | sed 's/ $//')
+    if [ "$got" = "$want" ]; then echo "   ok    $name ${mode:+[$mode]}: $got"
+    else echo "   FAIL  $name ${mode:+[$mode]}: expected '$want' got '$got'"; fail=1; fi
+  done
 }
 
 step "cases"
